@@ -31,3 +31,89 @@ void h_chain_accept(void) {
 	ASSERT(tk->type == ty && tk->next == (have_next ? nx : NULL) && nx->next == NULL, "C15: token_chain_accept leaves the chain untouched");
 	REACH();
 }
+
+/* ---- bounded companions (plain CBMC, loops unwound with unwinding assertions) ------------------------------
+ * token_chain_accept_multiple at the arities every call site in /repo uses (2 and 3), and the two skipping loops
+ * token_skip_until_type / token_skip_until_type_multiple on chains of <= CH_K tokens with symbolic types.
+ * An unbounded linked list cannot be stated in CBMC's loop-invariant language (no recursive predicates), hence
+ * bounded.  token_skip_until_type is used through a stub restating this contract in the C09 unit
+ * c09_sub_asset_paths_*: this unit is what stands behind that stub.                                           */
+#include <stdarg.h>
+#ifndef CH_K
+#define CH_K 4
+#endif
+#ifndef ARITY
+#define ARITY 2
+#endif
+token * token_chain_accept_multiple(token ** t, int n, ...);
+void token_skip_until_type_multiple(token ** t, int n, ...);
+
+static token * ch_node[CH_K + 1];
+static token * ch_build(unsigned n, const unsigned short * ty) {
+	for (unsigned i = 0; i < CH_K; i++) {
+		token * x = ALLOC(sizeof(token));
+		x->type = ty[i]; x->start = i; x->len = 1; x->next = NULL; x->prev = NULL; x->child = NULL; x->mate = NULL; x->tail = x;
+		ch_node[i] = x;
+	}
+	ch_node[CH_K] = NULL;
+	for (unsigned i = 0; i + 1 < CH_K; i++) {
+		if (i + 1 < n) { ch_node[i]->next = ch_node[i + 1]; ch_node[i + 1]->prev = ch_node[i]; }
+	}
+	return n ? ch_node[0] : NULL;
+}
+/* the chain is as built */
+static bool ch_untouched(unsigned n, const unsigned short * ty) {
+	for (unsigned i = 0; i < CH_K; i++) {
+		if (ch_node[i]->type != ty[i] || ch_node[i]->start != i || ch_node[i]->len != 1 || ch_node[i]->child != NULL || ch_node[i]->mate != NULL) { return false; }
+		if (ch_node[i]->next != ((i + 1 < n && i + 1 < CH_K) ? ch_node[i + 1] : NULL)) { return false; }
+	}
+	return true;
+}
+/* first node at or after position 0 whose type is a or b; NULL if none among the first n */
+static token * ch_first_of(unsigned n, const unsigned short * ty, unsigned short a, unsigned short b) {
+	for (unsigned i = 0; i < CH_K; i++) {
+		if (i < n && (ty[i] == a || ty[i] == b)) { return ch_node[i]; }
+	}
+	return NULL;
+}
+
+void h_accept_multiple(void) {
+	IN(unsigned, n); ASSUME(n <= CH_K);
+	IN_ARR(unsigned short, ty, CH_K);
+	IN(unsigned short, a); IN(unsigned short, b); IN(unsigned short, c);
+	token * slot = ch_build(n, ty);
+	token * first = slot;
+	token * r;
+#if ARITY == 2
+	r = token_chain_accept_multiple(&slot, 2, (int)a, (int)b);
+	bool match = first != NULL && (ty[0] == a || ty[0] == b);
+#else
+	r = token_chain_accept_multiple(&slot, 3, (int)a, (int)b, (int)c);
+	bool match = first != NULL && (ty[0] == a || ty[0] == b || ty[0] == c);
+#endif
+	ASSERT(match ? (r == first && slot == first->next) : (r == NULL && slot == first), "C15: token_chain_accept_multiple advances by exactly one sibling iff the first token has one of the types");
+	ASSERT(ch_untouched(n, ty), "C15: token_chain_accept_multiple leaves the chain untouched");
+	REACH();
+}
+
+void h_skip_until(void) {
+	IN(unsigned, n); ASSUME(n <= CH_K);
+	IN_ARR(unsigned short, ty, CH_K);
+	IN(unsigned short, type);
+	token * slot = ch_build(n, ty);
+	token_skip_until_type(&slot, type);
+	ASSERT(slot == ch_first_of(n, ty, type, type), "C15: token_skip_until_type stops at the FIRST sibling of the type, NULL when there is none");
+	ASSERT(ch_untouched(n, ty), "C15: token_skip_until_type leaves the chain untouched");
+	REACH();
+}
+
+void h_skip_until_multiple(void) {
+	IN(unsigned, n); ASSUME(n <= CH_K);
+	IN_ARR(unsigned short, ty, CH_K);
+	IN(unsigned short, a); IN(unsigned short, b);
+	token * slot = ch_build(n, ty);
+	token_skip_until_type_multiple(&slot, 2, (int)a, (int)b);
+	ASSERT(slot == ch_first_of(n, ty, a, b), "C15: token_skip_until_type_multiple stops at the FIRST sibling of either type, NULL when there is none");
+	ASSERT(ch_untouched(n, ty), "C15: token_skip_until_type_multiple leaves the chain untouched");
+	REACH();
+}
